@@ -23,6 +23,8 @@ def run(ck, tier):
     _infl.run(ck, F, 'C01')
     from . import mustpass as _mp
     _mp.run(ck, F, 'C01')
+    from . import accum as _acc
+    _acc.run(ck, F, 'C01')
     from . import c01x
     c01x.run(ck, F)
     r9 = core.Renamed(ck, "C09.", "C01.")
